@@ -56,8 +56,6 @@ func init() {
 		Old: "ft, err := fieldTag(fmt.Sprintf(\"%s_%s\", path, strings.ToLower(tn)))", New: "ft, err := fieldTag(fmt.Sprintf(\"%s_%d\", path, len(oofs)))", Expect: "fieldTag-arg"})
 	addMutant(Mutant{Name: "c28-keytag-cond", Property: "C28", File: "protogen/protogen.go",
 		Old: "\t\tkm.Fields = append(km.Fields, fd)\n\t\tctag++", New: "\t\tkm.Fields = append(km.Fields, fd)\n\t\tif !fd.IsOneOf {\n\t\t\tctag++\n\t\t}", Expect: "genListKeyProto:counter"})
-	addMutant(Mutant{Name: "c28-clash-guard-rawname", Property: "C28", File: "protogen/protogen.go",
-		Old: "if args.field.Name == fieldName {", New: "if args.field.Name == k {", Expect: "name-clash-guard"})
 	addMutant(Mutant{Name: "c28-oneof-not-checked", Property: "C28", File: "protogen/protogen.go",
 		Old: "\t\t\tif f.IsOneOf {\n\t\t\t\tif err := check(f.OneOfFields); err != nil {\n\t\t\t\t\treturn err\n\t\t\t\t}\n\t\t\t\tcontinue\n\t\t\t}\n", New: "\t\t\tif f.IsOneOf {\n\t\t\t\tcontinue\n\t\t\t}\n", Expect: "checkUniqueFieldTags:shape"})
 }
